@@ -109,6 +109,13 @@ def generate(tier, rng):
     for ct in DOCUMENTED + ['application/json; charset=utf-8', 'text/plain', None]:
         for body in BODIES[:3]:
             yield dict(make_case(ct, body, STATUS_FNS[0]), default_ct='application/json-rpc')
+    # the endpoint under test is not the application's own but one added with add_endpoint (plain, and on a sub-application /
+    # blueprint); the application's own endpoint then serves another registry
+    for mount in ('endpoint', 'sub'):
+        for ct in ('application/json', 'application/json-rpc; charset=utf-8', 'text/plain', None):
+            for body in BODIES[:12]:
+                for st in (STATUS_FNS[0], STATUS_FNS[1]):
+                    yield dict(make_case(ct, body, st), mount=mount)
     for prefix in ('/rpc/v1', '/api/', '/a/b/c'):
         for ct in ('application/json', 'application/json-rpc; charset=utf-8', 'text/plain'):
             for body in BODIES[:4]:
@@ -160,8 +167,17 @@ def register(dispatcher, cfg):
         dispatcher.add(f, m['name'])
 
 
+def other_registry(d):
+    def other_only():
+        return 'other'
+    d.add(other_only, 'other_only')
+
+
 def get_app(integration, c):
-    key = (integration, json.dumps(c['status']), c['prefix'])
+    mount = c.get('mount', 'main')
+    if integration == 'werkzeug':
+        mount = 'main'                     # the werkzeug integration has one endpoint
+    key = (integration, json.dumps(c['status']), c['prefix'], mount)
     if key in _APPS:
         return _APPS[key]
     sf = status_fn(c['status'])
@@ -171,8 +187,14 @@ def get_app(integration, c):
         from aiohttp.test_utils import TestClient, TestServer
         from pjrpc.server.integration import aiohttp as ai
         app = ai.Application(c['prefix'], **kw)
-        register(app.dispatcher, c['cfg'])
-        second_endpoint(app)
+        if mount == 'main':
+            register(app.dispatcher, c['cfg'])
+            second_endpoint(app)
+        else:
+            other_registry(app.dispatcher)
+            d = app.add_endpoint('/ep', subapp=web.Application()) if mount == 'sub' else app.add_endpoint('/ep')
+            register(d, c['cfg'])
+            second_endpoint(app)
 
         async def start():
             client = TestClient(TestServer(app.app))
@@ -185,8 +207,14 @@ def get_app(integration, c):
         from pjrpc.server.integration import flask as fl
         app = flask.Flask(f'verif{len(_APPS)}')
         rpc = fl.JsonRPC(c['prefix'], **kw)
-        register(rpc.dispatcher, c['cfg'])
-        second_endpoint(rpc)
+        if mount == 'main':
+            register(rpc.dispatcher, c['cfg'])
+            second_endpoint(rpc)
+        else:
+            other_registry(rpc.dispatcher)
+            d = rpc.add_endpoint('/ep', blueprint=flask.Blueprint(f'bp{len(_APPS)}', __name__)) if mount == 'sub' else rpc.add_endpoint('/ep')
+            register(d, c['cfg'])
+            second_endpoint(rpc)
         rpc.init_app(app)
         _APPS[key] = app.test_client()
     else:
@@ -198,8 +226,10 @@ def get_app(integration, c):
     return _APPS[key]
 
 
-def path_of(c):
+def path_of(c, integration=None):
     p = c['prefix'].rstrip('/')
+    if c.get('mount', 'main') != 'main' and integration != 'werkzeug':
+        p += '/ep'
     return p if p else '/'
 
 
@@ -209,7 +239,7 @@ def run_one(integration, c):
     del S.LOG[:]
     data = bytes.fromhex(c['raw_hex']) if 'raw_hex' in c else c['text'].encode('utf-8')
     headers = {} if c['content_type'] is None else {'Content-Type': c['content_type']}
-    path = path_of(c)
+    path = path_of(c, integration)
     if integration == 'aiohttp':
         async def go():
             from aiohttp import hdrs
